@@ -219,8 +219,25 @@ def gen_cases(ctx):
                 o["processes"] = 1
                 o["stopOnError"] = False
                 o.pop("layer", None)
+        if i % 10 == 4:
+            # independent layers run one after another in one process; the tearDown of the ones that run first raises
+            # (an ordinary exception): the layer is gone all the same - recorded as an error, not set up any more, its
+            # tearDown not attempted again
+            w = worlds.gen_world(rng, n_layers=rng.choice([3, 4]), tests_per_layer=(1, 2), kinds=["pass", "pass", "fail"],
+                                 p_fault=0.0, p_write=0.0)
+            nonunit = sorted([k for k, l in enumerate(w["layers"]) if l["kind"] != "unit"], key=lambda k: worlds.layer_name(w, k))
+            for rank, k in enumerate(nonunit):
+                w["layers"][k].update(setUp=True, tearDown=True, setUpRaises=[], tearDownFaults=[], bases=[])
+                if w["layers"][k]["kind"] == "class":
+                    w["layers"][k]["kind"] = "instance"
+                w["layers"][k].pop("falsy", None)
+                if rank < len(nonunit) - 1 and (rank == 0 or rng.random() < 0.5):
+                    w["layers"][k]["tearDownFaults"] = [[0, 1]]
+            o["processes"] = 1
+            o["stopOnError"] = False
+            o.pop("layer", None)
         o["verbose"] = rng.choice([0, 1, 2])
-        if rng.random() < 0.2 and i % 10 not in (2, 3):
+        if rng.random() < 0.2 and i % 10 not in (2, 3, 4):
             names = [worlds.layer_name(w, i) for i in range(len(w["layers"]))]
             o["layer"] = [rng.choice(names).split(".")[-1]]
         cases.append(cw.Case(w, o))
